@@ -176,7 +176,7 @@ def equation_of_motion(mdl: M.Model, tr, dts, out, pid='C03', init_speed=None):
             continue
         wstar = w[k - 1] + a[k - 1] * dt
         inc = a[k - 1] * dt
-        ok_speed = abs(w[k] - wstar) <= 64 * EPS * (abs(w[k - 1]) + abs(inc)) + 1e-9 * abs(inc)
+        ok_speed = abs(w[k] - wstar) <= 64 * EPS * (abs(w[k - 1]) + abs(inc)) + 1e-9 * abs(inc) + 1e-300
         if not ok_speed and not (can_hold and w[k] == 0):
             out.append((f'{pid}/speed-update',
                         f'instant {k}: speed {w[k]!r}, expected previous {w[k - 1]!r} + acceleration {a[k - 1]!r} '
@@ -185,7 +185,7 @@ def equation_of_motion(mdl: M.Model, tr, dts, out, pid='C03', init_speed=None):
         pinc = wstar * dt
         # the advanced speed carries the rounding of its own update (visible when w[k-1] and a[k-1] dt cancel)
         werr = 64 * EPS * (abs(w[k - 1]) + abs(inc))
-        if not abs(th[k] - (th[k - 1] + pinc)) <= 64 * EPS * (abs(th[k - 1]) + abs(pinc)) + 1e-9 * abs(pinc) + werr * dt:
+        if not abs(th[k] - (th[k - 1] + pinc)) <= 64 * EPS * (abs(th[k - 1]) + abs(pinc)) + 1e-9 * abs(pinc) + werr * dt + 1e-300:      # (1e-300: subnormal results have no relative precision)
             out.append((f'{pid}/position-update',
                         f'instant {k}: position {th[k]!r}, expected previous {th[k - 1]!r} + advanced speed '
                         f'{wstar!r} x dt {dt!r} = {th[k - 1] + pinc!r}'))
